@@ -255,3 +255,77 @@ func litField(fn *ssa.Function, obj ssa.Value, path ...string) ssa.Value {
 	}
 	return nil
 }
+
+// constructorLiteral: v is the result of a call to a private constructor of the package that returns a slab literal
+// it has just built (every success return yields the same fresh Alloc, possibly boxed into an interface).
+// Returns the callee, the literal inside it and the call.
+func constructorLiteral(v ssa.Value) (g *ssa.Function, lit *ssa.Alloc, call *ssa.Call, ok bool) {
+	v = canon(v)
+	for depth := 0; depth < 3; depth++ {
+		switch x := v.(type) {
+		case *ssa.MakeInterface:
+			v = canon(x.X)
+			continue
+		case *ssa.ChangeInterface:
+			v = canon(x.X)
+			continue
+		}
+		break
+	}
+	c, isCall := v.(*ssa.Call)
+	if !isCall {
+		return nil, nil, nil, false
+	}
+	g = c.Call.StaticCallee()
+	if g == nil || g.Pkg == nil || g.Pkg.Pkg.Path() != rootPkgPath || len(g.Blocks) == 0 || g.Signature.Results().Len() == 0 {
+		return nil, nil, nil, false
+	}
+	for _, ret := range returnsOf(g) {
+		if len(ret.Results) == 0 {
+			return nil, nil, nil, false
+		}
+		if lastResultIsError(g) {
+			if cl, _ := classifyReturn(ret); cl == retError {
+				continue
+			}
+		}
+		rv := canon(ret.Results[0])
+		if mi, isMI := rv.(*ssa.MakeInterface); isMI {
+			rv = canon(mi.X)
+		}
+		al, isAl := rv.(*ssa.Alloc)
+		if !isAl || !al.Heap {
+			return nil, nil, nil, false
+		}
+		if lit != nil && lit != al {
+			return nil, nil, nil, false
+		}
+		lit = al
+	}
+	if lit == nil {
+		return nil, nil, nil, false
+	}
+	return g, lit, c, true
+}
+
+// constructorField: the value a constructor call gives to a (nested) field of the literal it returns, seen from the
+// caller: a parameter of the constructor is replaced by the actual argument, anything else is returned as is
+// (inCallee reports that the value lives in the callee).
+func constructorField(v ssa.Value, path ...string) (val ssa.Value, inCallee bool, ok bool) {
+	g, lit, call, isC := constructorLiteral(v)
+	if !isC {
+		return nil, false, false
+	}
+	fv := litField(g, lit, path...)
+	if fv == nil {
+		return nil, false, false
+	}
+	if prm, isP := canon(fv).(*ssa.Parameter); isP {
+		for i, q := range g.Params {
+			if q == prm && i < len(call.Call.Args) {
+				return call.Call.Args[i], false, true
+			}
+		}
+	}
+	return fv, true, true
+}
